@@ -9,6 +9,7 @@ import (
 	"os"
 	"path/filepath"
 	"regexp"
+	"sort"
 	"strings"
 
 	"golang.org/x/tools/go/packages"
@@ -332,7 +333,14 @@ func (c *Check) guardRule(rule string, sel func(*ssa.Function) bool, constOnly b
 			}
 		}
 	}
-	_ = used
+	var unused []string
+	for k := range exceptions {
+		if !used[k] {
+			unused = append(unused, k)
+		}
+	}
+	sort.Strings(unused)
+	c.Extra["exceptions_not_needed_"+rule] = unused // sites the engine now proves, or that no longer exist
 	c.Extra["exception_hooks_evaluated_"+rule] = hooksUsed
 }
 
